@@ -239,6 +239,30 @@ def main():
             mine.append(f)
         elif pid in struct:
             structural.append(f)
+    # Arbiter: a failed clause that serves several properties (or sits in a function that does) is attributed by
+    # the bounded native oracle when it can: if the oracle exhibits a failing input for ANOTHER property of the
+    # same clause/function and none for this one, the failure is explained by that property and leaves this one
+    # undecided-by-proof (bounded stand-in decides) instead of raising a second, unconfirmed alarm.
+    confirmed = None
+    if mine:
+        try:
+            import native
+            nr_all = native.sweep(native.PROPS, 'quick', 0)
+            confirmed = {k for k, v in nr_all['summary'].get('per_property', {}).items() if v}
+        except Exception as e:
+            print('native arbiter unavailable: %s' % e)
+    if confirmed and pid not in confirmed and pid in getattr(__import__('native'), 'PROPS', []):
+        keep = []
+        for f in mine:
+            others = (set(f.get('tags') or []) | set(props.fn_default_tags(b['contracts'], f['fn']) or [])) - {pid, 'C10'}
+            expl = sorted(others & confirmed)
+            if expl:
+                f = dict(f, explained_by=expl)
+                structural.append(f)
+                print('NOTE property=%s failed obligation %s is explained by the confirmed violation of %s (failing input found for it, none for %s)' % (pid, f.get('oid') or f['fn'], ','.join(expl), pid))
+            else:
+                keep.append(f)
+        mine = keep
     # obligations of this property
     clauses = [c for c in b['registry'] if pid in c.tags]
     fr0 = fn_results(res)
